@@ -34,6 +34,12 @@ ORDERS = [["Subject", "URI", "Hash", "DNS", "By", "Cert"], ["Subject"] * 6, ["UR
 ENC = ["%2C", "%3B", "%22", "%3D", "%5C", "%25"]
 DEC = [",", ";", '"', "=", "\\", "%"]
 CNS = ["CN", "cn", "Cn", "cN"]
+# percent-escapes of the delimiters are symbols of the header alphabet (ordinary value characters in Xfcc.tla)
+ESC = {"E,": ("%2C", "%2c"), "E;": ("%3B", "%3b"), "E=": ("%3D", "%3d"), "Eq": ("%22", "%22"), "Eb": ("%5C", "%5c")}
+ESC_TOKEN = {"%2C": ",", "%2c": ",", "%3B": ";", "%3b": ";", "%3D": "=", "%3d": "=", "%22": "q", "%5C": None, "%5c": None}
+# a key letter inside a value, between an escaped separator and an escaped '=': written as a real key name, so that a
+# parser which lets the escapes act as delimiters injects a recognised field (unique spelling per header position)
+DECOYS = ["Subject", "subject", "SUBJECT", "URI", "uri", "SubjecT", "Hash", "hash"]
 
 
 def key_runs(s: list[str], exp: dict) -> list[tuple[int, int]]:
@@ -75,6 +81,8 @@ def concretize(s: list[str], exp: dict, vi: int, rng: random.Random):
             keypos.add(j)
     enc = vi in (3, 4) or (vi >= len(ORDERS) and rng.random() < 0.3)
     cn_used = 0
+    decoy_used = 0
+    table_.update(ESC_TOKEN)
     for i, ch in enumerate(s):
         if i in keypos:
             continue
@@ -87,12 +95,19 @@ def concretize(s: list[str], exp: dict, vi: int, rng: random.Random):
                 chunks[i] = f"v{i + 1:02d}"
             table_[chunks[i]] = str(i + 1)
         elif ch == "k":
-            if i + 1 < n and s[i + 1] == "=" and cn_used < len(CNS) and vi != 1:
-                chunks[i] = CNS[cn_used]                          # RDN type inside a value:  CN=...
+            nxt = s[i + 1] if i + 1 < n else ""
+            prv = s[i - 1] if i > 0 else ""
+            if nxt == "E=" and prv in ("E;", "E,") and decoy_used < len(DECOYS) and vi != 1:
+                chunks[i] = DECOYS[decoy_used]                    # ...%3BSubject%3D...
+                decoy_used += 1
+            elif nxt in ("=", "E=") and cn_used < len(CNS) and vi != 1:
+                chunks[i] = CNS[cn_used]                          # RDN type inside a value:  CN=...  /  CN%3D...
                 cn_used += 1
             else:
                 chunks[i] = f"K{i + 1:02d}"
             table_[chunks[i]] = str(i + 1)
+        elif ch in ESC:
+            chunks[i] = ESC[ch][(i + vi) % 2]
         elif ch == "q":
             chunks[i] = '"'
         elif ch == "b":
@@ -110,7 +125,8 @@ def tokens(text: str, table_: dict[str, str]) -> list[str]:
     while i < n:
         for k in keys:
             if text.startswith(k, i):
-                out.append(table_[k])
+                if table_[k] is not None:                 # None: %5C, an encoded backslash -- dropped like a backslash
+                    out.append(table_[k])
                 i += len(k)
                 break
         else:
@@ -129,8 +145,11 @@ def run(ctx: Ctx) -> None:
     from vgi_rpc.rpc import AuthContext
 
     quick = ctx.quick
-    consts = {"MaxLen": 4 if quick else 6, "TailLen": 4 if quick else 6, "FamilyDepth": 1 if quick else 2,
-              "Alphabet": Raw('{",", ";", "=", "q", "b", "k", "v"}')}
+    # quick: the two escapes that matter most (%3B, %3D) join the exhaustive alphabet; thorough: all five.  The family
+    # of longer valid headers uses all five in both tiers.
+    consts = {"MaxLen": 4 if quick else 5, "TailLen": 4 if quick else 5, "FamilyDepth": 1 if quick else 2,
+              "Alphabet": Raw('{",", ";", "=", "q", "b", "k", "v", "E;", "E="}') if quick else
+              Raw('{",", ";", "=", "q", "b", "k", "v", "E,", "E;", "E=", "Eq", "Eb"}')}
     invs = ["ElemsAreTopLevelCommas", "PairsAreTopLevelSemis", "EveryLetterOnce", "NonEmptyElems", "QuotesOnlyEscaped"]
     cases = enumerate_cases(ctx, "data", "Xfcc", constants=consts, invariants=invs)
     ctx.exhaustive = True
@@ -189,7 +208,7 @@ def run(ctx: Ctx) -> None:
                             ctx.violation("OnlyAuthFailure", {"cls": "invalid", "exc": out, "sel": sel, "leg": leg},
                                           {"header": hdr, "abstract": "".join(s), "exception": repr(r)})
             continue
-        nvar = 1 if cls != "valid" else (2 if quick else 4)
+        nvar = 1 if cls != "valid" else (3 if quick else 4)
         for vi in range(nvar):
             rng = random.Random(f"{ctx.seed}|{ci}|{vi}")
             hdr, names, tb = concretize(s, exp, vi, rng)
